@@ -1,6 +1,9 @@
 package main
 
-import "go/ast"
+import (
+	"go/ast"
+	"strings"
+)
 
 // C01: the sender's chunking (Stream.Write) and the frame size limit (MakeSession).
 func init() { register(factsDeliver) }
@@ -80,6 +83,33 @@ func factsDeliver() {
 		boolFact(g, "creatorServesSessionEvenIfReplyFails", ok, "dispatchConnection: a failed handshake reply returns only when the session existed; the connection that made the session reaches serveSession")
 	} else {
 		unrec(g, "creatorServesSessionEvenIfReplyFails", "dispatchConnection not found")
+	}
+	// the relay at the application's end: common.Copy closes BOTH connections when it returns, whichever direction ended and
+	// why; RouteTCP runs one Copy per direction; Stream.ReadFrom (what Copy(stream, localConn) runs) gives up with an error
+	// when the stream has been closed, AFTER it has taken bytes from the application
+	if cp := fnOf(cm, "Copy"); cp != nil {
+		evs := rawEvents(cp)
+		boolFact(g, "copyClosesBothOnReturn", len(evs) > 0 && evs[0].kind == "defer" && strings.Contains(show(cp.Body.List[0]), "src.Close()") && strings.Contains(show(cp.Body.List[0]), "dst.Close()"),
+			"common.Copy: defer func() { src.Close(); dst.Close() }() — both connections are closed when either direction ends")
+	} else {
+		unrec(g, "copyClosesBothOnReturn", "common.Copy not found")
+	}
+	if rt := fnOf(cl, "RouteTCP"); rt != nil {
+		t := show(rt.Body)
+		boolFact(g, "routeTCPOneCopyPerDirection", strings.Count(t, "common.Copy(localConn, stream)") == 1 && strings.Count(t, "common.Copy(stream, localConn)") == 1,
+			"RouteTCP: go Copy(localConn, stream) and Copy(stream, localConn)")
+	} else {
+		unrec(g, "routeTCPOneCopyPerDirection", "RouteTCP not found")
+	}
+	if rf := fnOf(mx, "Stream.ReadFrom"); rf != nil {
+		evs := rawEvents(rf)
+		iRead := idx(evs, 0, "assign", `:= r\.Read\(`)
+		iClosed := idx(evs, iRead, "if", `^s\.isClosed\(\)$`)
+		iSend := idx(evs, 0, "assign", `= s\.obfuscateAndSend\(`)
+		boolFact(g, "readFromFailsOnClosedStream", iRead >= 0 && iClosed > iRead && iSend > iClosed && idx(evs, iClosed, "return", `ErrBrokenStream`) > iClosed && idx(evs, iClosed, "return", `ErrBrokenStream`) < iSend,
+			"Stream.ReadFrom: reads from its source, then returns ErrBrokenStream if the stream is closed, before sending")
+	} else {
+		unrec(g, "readFromFailsOnClosedStream", "Stream.ReadFrom not found")
 	}
 	var _ ast.Node
 }
